@@ -234,6 +234,8 @@ Expect(p, t) ==
                        \* a part of the address that follows one of its own hex letters is "next to a letter": not judged
                        /\ ((glue(l) \/ glue(r)) => \A i \in 1..Len(p.addr) : ~IsWordC(p.addr[i]) \/ IsDigit(p.addr[i])),
              matches |-> IF glue(l) \/ glue(r) THEN <<>> ELSE << <<Len(p.l), Len(p.l) + Len(p.addr)>> >>]
+    [] p.kind = "DecCtx" ->     \* an exactly matching decimal between neutral contexts is matched as a whole
+         [exact |-> Unspecified, mspec |-> TRUE, matches |-> << <<Len(p.l), Len(p.l) + Len(p.mid)>> >>]
     [] p.kind = "Date" -> [exact |-> B2V(\E i \in 1..Len(p.fmts) : DateOK(p.fmts[i], p.cand)), mspec |-> FALSE, matches |-> <<>>]
 
 TextPars == Pars
@@ -241,11 +243,14 @@ TextPars == Pars
 DatePars == { [kind |-> "Date", ext |-> e, fmts |-> f, cand |-> c] : e \in DateExts, f \in DateFmtLists, c \in DateCands }
 
 IPCtxPars == { [kind |-> "IPctx", ext |-> FALSE, v6 |-> a[1], addr |-> a[2], l |-> l, r |-> r] : a \in IPAddrs, l \in IPCtxs, r \in IPCtxs }
+DecCtxPars == { q \in { [kind |-> "DecCtx", ext |-> FALSE, base |-> p, mid |-> m, l |-> l, r |-> r] :
+                           p \in DecBasePars, m \in DecMids, l \in DecCtxs, r \in DecCtxs } : DecExact(q.base, q.mid) }
 Init == \/ /\ par \in TextPars /\ txt = <<>> /\ res = Expect(par, <<>>)
+        \/ /\ par \in DecCtxPars /\ txt = par.l \o par.mid \o par.r /\ res = Expect(par, par.l \o par.mid \o par.r)
         \/ /\ par \in IPCtxPars /\ txt = par.l \o par.addr \o par.r /\ res = Expect(par, par.l \o par.addr \o par.r)
         \/ /\ par \in DatePars /\ txt = DateText(par.cand) /\ res = Expect(par, DateText(par.cand))
 
-Next == /\ par.kind \notin {"Date", "IPctx"}
+Next == /\ par.kind \notin {"Date", "IPctx", "DecCtx"}
         /\ Len(txt) < MaxLen
         /\ \E c \in par.alpha : /\ txt' = Append(txt, c)
                                 /\ res' = Expect(par, Append(txt, c))
